@@ -23,15 +23,17 @@ theorem mem_violations (sch : Schema) (ents : Map Id Ent) (id : Id) (e : Ent) (x
   unfold Spec.violations Listed
   simp only [List.mem_append, mem_ite_singleton, heldByOther_iff]
   constructor
-  · rintro (((⟨⟨h1, h2⟩, rfl⟩ | ⟨⟨h1, h2⟩, rfl⟩) | ⟨⟨h1, h2⟩, rfl⟩) | ⟨h1, rfl⟩)
+  · rintro ((((⟨⟨h1, h2⟩, rfl⟩ | ⟨⟨h1, h2⟩, rfl⟩) | ⟨⟨h1, h2⟩, rfl⟩) | ⟨h1, rfl⟩) | ⟨h1, rfl⟩)
     · exact Or.inl ⟨rfl, h1, h2⟩
     · exact Or.inr (Or.inl ⟨rfl, h1, h2⟩)
     · exact Or.inr (Or.inr (Or.inl ⟨rfl, h1, h2⟩))
-    · exact Or.inr (Or.inr (Or.inr ⟨rfl, h1⟩))
-  · rintro (⟨rfl, h1, h2⟩ | ⟨rfl, h1, h2⟩ | ⟨rfl, h1, h2⟩ | ⟨rfl, h1⟩)
-    · exact Or.inl (Or.inl (Or.inl ⟨⟨h1, h2⟩, rfl⟩))
+    · exact Or.inr (Or.inr (Or.inr (Or.inl ⟨rfl, h1⟩)))
+    · exact Or.inr (Or.inr (Or.inr (Or.inr ⟨rfl, h1⟩)))
+  · rintro (⟨rfl, h1, h2⟩ | ⟨rfl, h1, h2⟩ | ⟨rfl, h1, h2⟩ | ⟨rfl, h1⟩ | ⟨rfl, h1⟩)
+    · exact Or.inl (Or.inl (Or.inl (Or.inl ⟨⟨h1, h2⟩, rfl⟩)))
+    · exact Or.inl (Or.inl (Or.inl (Or.inr ⟨⟨h1, h2⟩, rfl⟩)))
     · exact Or.inl (Or.inl (Or.inr ⟨⟨h1, h2⟩, rfl⟩))
-    · exact Or.inl (Or.inr ⟨⟨h1, h2⟩, rfl⟩)
+    · exact Or.inl (Or.inr ⟨h1, rfl⟩)
     · exact Or.inr ⟨h1, rfl⟩
 
 theorem violations_nil_iff (sch : Schema) (ents : Map Id Ent) (id : Id) (e : Ent) :
@@ -42,21 +44,25 @@ theorem violations_nil_iff (sch : Schema) (ents : Map Id Ent) (id : Id) (e : Ent
       intro x hx
       have := (mem_violations sch ents id e x).2 hx
       rw [h] at this; cases this
-    refine ⟨?_, ?_, ?_, ?_⟩
+    refine ⟨?_, ?_, ?_, ?_, ?_, ?_⟩
     · intro hr hn; exact hm _ (Or.inl ⟨rfl, hr, hn⟩)
     · intro hh; exact hm _ (Or.inr (Or.inl ⟨rfl, hh.1, hh.2⟩))
     · intro hh; exact hm _ (Or.inr (Or.inr (Or.inl ⟨rfl, hh.1, hh.2⟩)))
-    · intro hh; exact hm _ (Or.inr (Or.inr (Or.inr ⟨rfl, hh⟩)))
+    · intro hh; exact hm _ (Or.inr (Or.inr (Or.inr (Or.inl ⟨rfl, hh⟩))))
+    · exact Nat.le_of_not_gt fun hh => hm _ (Or.inr (Or.inr (Or.inr (Or.inr ⟨rfl, Or.inl hh⟩))))
+    · exact Nat.le_of_not_gt fun hh => hm _ (Or.inr (Or.inr (Or.inr (Or.inr ⟨rfl, Or.inr hh⟩))))
   · intro ha
     cases hv : Spec.violations sch ents id e with
     | nil => rfl
     | cons a l =>
       have : Listed sch ents id e a := (mem_violations sch ents id e a).1 (by rw [hv]; simp)
-      rcases this with ⟨_, h1, h2⟩ | ⟨_, h1, h2⟩ | ⟨_, h1, h2⟩ | ⟨_, h1⟩
+      rcases this with ⟨_, h1, h2⟩ | ⟨_, h1, h2⟩ | ⟨_, h1, h2⟩ | ⟨_, h1⟩ | ⟨_, h1 | h1⟩
       · exact absurd h2 (ha.1 h1)
       · exact absurd ⟨h1, h2⟩ ha.2.1
       · exact absurd ⟨h1, h2⟩ ha.2.2.1
-      · exact absurd h1 ha.2.2.2
+      · exact absurd h1 ha.2.2.2.1
+      · exact absurd ha.2.2.2.2.1 (Nat.not_le_of_gt h1)
+      · exact absurd ha.2.2.2.2.2 (Nat.not_le_of_gt h1)
 
 /-- abstraction: forget the indexes -/
 def abs (s : State) : Spec.SState := ⟨s.base.hasEnts, s.base.ents, s.ext⟩
